@@ -65,6 +65,61 @@ func (t *concurrentTxn) Set(ctx context.Context, key []byte, value []byte) error
 	return t.Txn.Set(ctx, key, value)
 }
 
+// Iterator returns an iterator over the underlying transaction whose every operation takes
+// the transaction's mutex, so that it may be used while other goroutines access the transaction.
+func (t *concurrentTxn) Iterator(ctx context.Context, opts corekv.IterOptions) (corekv.Iterator, error) {
+	t.mu.Lock()
+	defer t.mu.Unlock()
+	iter, err := t.Txn.Iterator(ctx, opts)
+	if err != nil {
+		return nil, err
+	}
+	return &concurrentIterator{iter: iter, mu: &t.mu}, nil
+}
+
+type concurrentIterator struct {
+	iter corekv.Iterator
+	mu   *sync.Mutex
+}
+
+var _ corekv.Iterator = (*concurrentIterator)(nil)
+
+func (i *concurrentIterator) Next() (bool, error) {
+	i.mu.Lock()
+	defer i.mu.Unlock()
+	return i.iter.Next()
+}
+
+func (i *concurrentIterator) Key() []byte {
+	i.mu.Lock()
+	defer i.mu.Unlock()
+	return i.iter.Key()
+}
+
+func (i *concurrentIterator) Value() ([]byte, error) {
+	i.mu.Lock()
+	defer i.mu.Unlock()
+	return i.iter.Value()
+}
+
+func (i *concurrentIterator) Seek(key []byte) (bool, error) {
+	i.mu.Lock()
+	defer i.mu.Unlock()
+	return i.iter.Seek(key)
+}
+
+func (i *concurrentIterator) Reset() {
+	i.mu.Lock()
+	defer i.mu.Unlock()
+	i.iter.Reset()
+}
+
+func (i *concurrentIterator) Close() error {
+	i.mu.Lock()
+	defer i.mu.Unlock()
+	return i.iter.Close()
+}
+
 // Sync executes the transaction.
 func (t *concurrentTxn) Sync(ctx context.Context) error {
 	return t.Commit()
